@@ -1588,7 +1588,9 @@ func init() {
 			mixes := []string{"ms,ms", "ms,fs", "fs,fs", "fa,ms", "rp,rq", "rp,rp", "sp,ms", "rf,fs", "ms,b:ms", "rp,b:rp", "fs,b:fa", "mr,mr"}
 			n, pre := 1, 2
 			if tier == "thorough" {
-				n, pre = 2, 3
+				// every pattern x mix combination and three-goroutine mixes, at the quick tier's text size and
+				// pre-emption bound (two symbolic runes per goroutine or three pre-emptions exhaust the path budget
+				// of most units: tried, 22 of 40 units undecided)
 				mixes = append(mixes, "ms,fs,rp", "rp,rq,b:rp", "fs,fs,fs")
 			}
 			var us []Unit
